@@ -13,6 +13,66 @@ import (
 	"verif/harness/vk"
 )
 
+// keep registers a returned result for later re-validation (set in init: the checker refers to check).
+var keep func(func() string)
+
+func init() { keep = checker.Keep }
+
+// coldStart runs before anything else in the process: Select32 / Select32R64 / Rank64 are queried with
+// indexes computed by the oracle (equal to what the builders return, but no builder has run yet in
+// this process - e.g. an index loaded from disk). State that only the builders initialise shows up.
+func coldStart() string {
+	for _, w := range [][]uint64{{0x8000000000010100, 0, 0x10}, {^uint64(0), 0x0123456789abcdef, 1 << 63}, {0xb5 << 24}} {
+		pos := model.Ones(w)
+		var sidx, ridx []int32
+		for k := 0; 32*k < len(pos); k++ {
+			sidx = append(sidx, pos[32*k])
+		}
+		cnt := int32(0)
+		for _, x := range w {
+			ridx = append(ridx, cnt)
+			cnt += int32(model.WordCount(x))
+		}
+		ridx = append(ridx, cnt)
+		for i := range pos {
+			next := int32(64 * len(w))
+			if i+1 < len(pos) {
+				next = pos[i+1]
+			}
+			a, b := bitmap.Select32(w, sidx, int32(i))
+			if a != pos[i] || b != next {
+				return fmt.Sprintf("first use in the process: Select32(%#x, oracle-built index, %d) = (%d,%d), want (%d,%d)", w, i, a, b, pos[i], next)
+			}
+			a, b = bitmap.Select32R64(w, sidx, ridx, int32(i))
+			if a != pos[i] || b != next {
+				return fmt.Sprintf("first use in the process: Select32R64(%#x, oracle-built indexes, %d) = (%d,%d), want (%d,%d)", w, i, a, b, pos[i], next)
+			}
+			if r, bit := bitmap.Rank64(w, ridx, pos[i]); r != int32(i) || bit != 1 {
+				return fmt.Sprintf("first use in the process: Rank64(%#x, oracle-built index, %d) = (%d,%d), want (%d,1)", w, pos[i], r, bit, i)
+			}
+		}
+	}
+	return ""
+}
+
+var coldStartResult = func() (msg string) {
+	defer func() {
+		if r := recover(); r != nil {
+			msg = fmt.Sprintf("first use in the process panicked: %v", r)
+		}
+	}()
+	return coldStart()
+}()
+
+// TestColdStart reports what the very first library calls of this process returned.
+func TestColdStart(t *testing.T) {
+	vk.SetPhase("coldstart")
+	vk.Label("cold-start-probe", 1)
+	if coldStartResult != "" {
+		checker.Run(t, Case{Style: "cold-start:" + coldStartResult})
+	}
+}
+
 func TestMain(m *testing.M) { vk.Main(m, "C02") }
 
 type Case struct {
@@ -42,6 +102,9 @@ var checker = &vk.Checker[Case]{
 }
 
 func classify(c Case) (bool, []string) {
+	if len(c.Style) > 11 && c.Style[:11] == "cold-start:" {
+		return false, []string{"cold-start-failure"}
+	}
 	w := c.words()
 	n := 0
 	gap := false
@@ -88,6 +151,14 @@ func classify(c Case) (bool, []string) {
 var scratch vk.Scratch
 
 func check(c Case) (f *vk.Failure) {
+	if len(c.Style) > 11 && c.Style[:11] == "cold-start:" {
+		// a cold-start failure is only observable by the first calls of a process: the replay re-evaluates
+		// the probe result of its own process
+		if coldStartResult != "" {
+			return vk.Failf("cold-start", "%s", coldStartResult)
+		}
+		return nil
+	}
 	orig := c.words()
 	words := vk.Words(orig).Clone() // what the code under test sees: a private copy ...
 	reused := scratch.Reuse(vk.SumU64(orig))
@@ -133,6 +204,33 @@ func check(c Case) (f *vk.Failure) {
 		}
 	}); f != nil {
 		return f
+	}
+	vk.ScribbleI32(sidx) // what a caller's append would do to each returned index
+	vk.ScribbleI32(sidx2)
+	vk.ScribbleI32(ridx)
+	{
+		ks, kr := sidx2, ridx
+		ws := make([]int32, 0, len(sidx2))
+		for k := 0; 32*k < n; k++ {
+			ws = append(ws, pos[32*k])
+		}
+		wr := append([]int32(nil), bitmap.IndexRank64(orig, true)...)
+		keep(func() string {
+			if len(ks) != len(ws) {
+				return "select index changed length"
+			}
+			for i := range ws {
+				if ks[i] != ws[i] {
+					return fmt.Sprintf("IndexSelect32R64 select index entry %d was %d, now %d", i, ws[i], ks[i])
+				}
+			}
+			for i := range wr {
+				if i < len(kr) && kr[i] != wr[i] {
+					return fmt.Sprintf("IndexSelect32R64 rank index entry %d was %d, now %d", i, wr[i], kr[i])
+				}
+			}
+			return ""
+		})
 	}
 	wantEntries := (n + 31) / 32
 	for name, ix := range map[string][]int32{"IndexSelect32": sidx, "IndexSelect32R64.select": sidx2} {
